@@ -12,7 +12,7 @@ NA = {
 CHECKS = {
     "C01": dict(
         cat="other", technique="sibling agreement between the simulators' implementations of one gate: phase exponents of the diagonal gates, displacement amplitude and squeezing Bogoliubov coefficients, complex-form symplectic assembly - translated to sympy / matrix words from source and compared",
-        text="Decides three sibling-agreement clauses that are necessary for the bosonic simulators to implement the same gates: (a) the phase exponents of Kerr and CrossKerr agree between the pure-Fock, mixed-Fock and passive simulators (g_pure = g_passive, g_mixed(ket, bra) = g_pure(ket) - g_pure(bra)); (b) the amplitude the Gaussian displacement step adds equals the alpha of the Fock-space displacement matrix, and the passive/active blocks of Squeezing equal the Bogoliubov coefficients (1/g, 2A'/g) implied by the scalars of the Fock-space squeezing matrix; (c) the Fock `linear` steps assemble [[P, A], [conj A, conj P]], the convention a' = P a + A a^dagger for which the Gaussian update rules are derived (C07e). Equality of photon statistics, state vectors and density matrices of the four simulators over all programs is numerical and NOT decided; the sub-clauses for every hbar, cutoff >= 1 and mode order are decided under C14/C02, C13, C16.",
+        text="Decides three sibling-agreement clauses that are necessary for the bosonic simulators to implement the same gates: (a) the phase exponents of Kerr and CrossKerr agree between the pure-Fock, mixed-Fock and passive simulators (g_pure = g_passive, g_mixed(ket, bra) = g_pure(ket) - g_pure(bra)); (b) the amplitude the Gaussian displacement step adds equals the alpha of the Fock-space displacement matrix, and the passive/active blocks of Squeezing equal the Bogoliubov coefficients (1/g, 2A'/g) implied by the scalars of the Fock-space squeezing matrix; (c) the Fock `linear` steps assemble [[P, A], [conj A, conj P]], the convention a' = P a + A a^dagger for which the Gaussian update rules are derived (C07e); (d) the Fock attenuator's weight of the coherence |1><0| equals the factor X by which the Gaussian attenuator scales the mean. Equality of photon statistics, state vectors and density matrices of the four simulators over all programs is numerical and NOT decided; the sub-clauses for every hbar, cutoff >= 1 and mode order are decided under C14/C02, C13, C16.",
         note="Trusted: python ast, sympy, the disentangled form of the squeezing operator. Clause-level claim only.",
         ref="DESIGN 3/C01"),
     "C02": dict(
@@ -57,7 +57,7 @@ CHECKS = {
         ref="DESIGN 3/C09, 2/E1, 2/E3"),
     "C10": dict(
         cat="other", technique="numpy roll-and-weight idioms read as ladder-operator words and compared (sympy) with the differentiated normal-ordered factorisation + einsum adjoint rule (alpha-equivalence of the VJP specifications with the adjoint of the forward specification) + cotangent-order and pairing-form rules",
-        text="Decides four structural / symbolic necessary clauses for the hand-written gradient rules: (a) the gradient matrices of the single-mode displacement and squeezing operators, read from the np.roll / square-root-of-index code as sums of ladder words a^dagger^i T a^j, equal d/dr and d/dphi of the normal-ordered factorisation of D(alpha) and S(z) for all r, phi (coefficient identities decided by sympy), and the forward builders define the scalars of that factorisation; (b) the two vector-Jacobian products of each linear map y = M x of the Fock simulator (active single-mode gates, interferometer blocks) are the einsum adjoints of the forward einsum, batched and unbatched, with the non-cotangent operand conjugated; (c) every callback returns its cotangents in the order of the arguments of the function it is attached to; (d) a real parameter's cotangent is Re sum(upstream * conj(dT/dp)) in both arms of the callback. Agreement of gradient values with finite differences, the gradient recurrence of the interferometer representation, compiled execution and the native permanent VJP are NOT decided.",
+        text="Decides four structural / symbolic necessary clauses for the hand-written gradient rules: (a) the gradient matrices of the single-mode displacement and squeezing operators, read from the np.roll / square-root-of-index code as sums of ladder words a^dagger^i T a^j, equal d/dr and d/dphi of the normal-ordered factorisation of D(alpha) and S(z) for all r, phi (coefficient identities decided by sympy), and the forward builders define the scalars of that factorisation; (b) the two vector-Jacobian products of each linear map y = M x of the Fock simulator (active single-mode gates, interferometer blocks) are the einsum adjoints of the forward einsum, batched and unbatched, with the non-cotangent operand conjugated, and the cotangent of the state vector is put back into state-vector order unconditionally; (c) every callback returns its cotangents in the order of the arguments of the function it is attached to; (d) a real parameter's cotangent is Re sum(upstream * conj(dT/dp)) in both arms of the callback. Agreement of gradient values with finite differences, the gradient recurrence of the interferometer representation, compiled execution and the native permanent VJP are NOT decided.",
         note="Trusted: python ast; sympy; the disentangled (normal-ordered) forms of the displacement and squeezing operators and a^dagger f(n) a = n f(n-1); numpy broadcasting of a vector along the last axis. Clause-level claim only.",
         ref="DESIGN 3/C10"),
     "C11": dict(
@@ -114,15 +114,16 @@ CHECKS = {
 
 # clauses added after the independently seeded round (DESIGN 4c); appended to the claim text
 ADDED = {
-    "C02": " Also: (d) no random draw is stored under a data-dependent key and reused for several sample components.",
+    "C02": " Also: (f) like-named sizes are read from the same axis of the same matrix parameter by sibling functions (exact and sampled treatment of imperfect detectors). Also: (d) no random draw is stored under a data-dependent key and reused for several sample components.",
     "C05": " Also: (d) mode tuples live in two index spaces (positions among the active modes vs original mode labels); each call from a simulation step into a state method hands the space the parameter is used in there (inferred from its combination with the post-selected modes / its use as an index into the active modes), converting with map_to_original_modes; (e) a positional cursor carried from one loop iteration to the next is advanced on every path through the loop body (no `continue` before its update); (f) only the state's initialiser and _apply_matrix_on_modes assign the effective interferometer (simulation steps never write it directly, because they hold positions among the active modes).",
     "C03": " Also: (d) every branch state handed on by a step reachable with shots=None is the normalised projection (constructor with a normalization argument or normalize() on the way), which is what makes the simulator's multiplication of child by parent weights the chain rule. Also: (c) in every `shots is None` arm the weights handed on are the iterated probabilities themselves (times the parent branch's weight), not a renormalised or rescaled value.",
-    "C04": " Also: no `<<` is evaluated in fewer bits than the stated multiplicity range needs with a run-time count; an in-place rescaling helper returns on every path the factor it applied on that path; the native kernels branch on computed floating values only through exact tests (no absolute tolerance).",
-    "C07": " Also: every closed-form block is free of config.hbar; the S_(c) matrices printed in the class docstrings equal [[P, A], [conj A, conj P]] assembled from the blocks (LaTeX fragment reader); the steps registered for gates keep the requested mode order (no sorted image, no order-insensitive shortcut).",
-    "C08": " Also: (b) every update of the mixed-Fock density matrix has a Hermiticity-preserving form (K rho K^dagger with the same K on both sides, an elementwise factor exp(i(g(ket) - g(bra))), an explicit conjugate-transpose mirror fill) and the attenuator's weights are symmetric under ket <-> bra.",
-    "C09": " Also: (d) the NumPy/numba and the JAX implementation of the Gaussian density-matrix recurrence have the same normal form (pivot, initial term, loop summands, divisor).",
-    "C11": " Also: the seed of every privately constructed generator is traced to a read of the seed_sequence property; no object shared by the shots of a dask region (bound by partial, free variable of the per-shot closure) is written in place by the per-shot callable; the jobs of the native permanent tile the Gray-code range exactly for every job count (S(0)=0, E(K-1)=M-1, S(j+1)=E(j)+1, proved by case split over the comparisons).",
+    "C04": " Also: the absolute-threshold rule covers the numba hafnian kernels (the guard of an identity-rescaling arm is the accepted idiom); an exact zero test of a sum is applied to summands that cannot cancel. Also: no `<<` is evaluated in fewer bits than the stated multiplicity range needs with a run-time count; an in-place rescaling helper returns on every path the factor it applied on that path; the native kernels branch on computed floating values only through exact tests (no absolute tolerance).",
+    "C07": " Also: every moment update of the six Gaussian update functions is executed on every non-raising path (CFG must-pass-through). Also: every closed-form block is free of config.hbar; the S_(c) matrices printed in the class docstrings equal [[P, A], [conj A, conj P]] assembled from the blocks (LaTeX fragment reader); the steps registered for gates keep the requested mode order (no sorted image, no order-insensitive shortcut).",
+    "C08": " Also: a triangle of a density matrix mirrored by plain transposition is reported; the attenuator's weight equals the channel formula its docstring states (when stated). Also: (b) every update of the mixed-Fock density matrix has a Hermiticity-preserving form (K rho K^dagger with the same K on both sides, an elementwise factor exp(i(g(ket) - g(bra))), an explicit conjugate-transpose mirror fill) and the attenuator's weights are symmetric under ket <-> bra.",
+    "C09": " Also: (e) a connector's hand-written polar decomposition has the contract of scipy.linalg.polar (P^2 = M^dagger M, U = M P^-1 on the right; P^2 = M M^dagger, U = P^-1 M on the left), decided in the matrix-word algebra; the result of connector.assign bound to a local that is never read again is reported (lost update under functional connectors). Also: (d) the NumPy/numba and the JAX implementation of the Gaussian density-matrix recurrence have the same normal form (pivot, initial term, loop summands, divisor).",
+    "C11": " Also: (g) no Python code reads the worker count (numba.get_num_threads, NUMBA_NUM_THREADS, cpu_count); (h) a hand-written cache keys on every attribute of self that the cached method reads and that a method other than __init__ re-assigns or mutates. Also: the seed of every privately constructed generator is traced to a read of the seed_sequence property; no object shared by the shots of a dask region (bound by partial, free variable of the per-shot closure) is written in place by the per-shot callable; the jobs of the native permanent tile the Gray-code range exactly for every job count (S(0)=0, E(K-1)=M-1, S(j+1)=E(j)+1, proved by case split over the comparisons).",
     "C06": " Also: (d) the accumulators of the vectorised index functions have a literal integer dtype of at least 32 bits, never the dtype of the argument.",
+    "C12": " Also: (f) branches built in a loop do not share one state object (the simulator evolves branch states in place); shallow copies (copy.copy) keep their element aliases, the parts of a memoised object reached through attributes belong to it and attribute stores on them are writes.",
     "C13": " Also: (g) accumulator protocol for every cutoff >= 1: a constant index written into connector.accumulator(size=cutoff) is below the size and the start of a connector.range does not exceed its limit (fixed-size tf.TensorArray, tf.range). Also: the preparation-order validator may only test isinstance(., Preparation) (closed world).",
     "C14": " Also: doubling layouts - v.repeat(2) is pairwise (xpxp-like), concatenate([v, v]) / tile(v, 2) and the complex covariance / displacement are block (xxpp-like); sums and products combine one layout. Also: (c) every GaussianState constructed inside the library receives the config of the state it is derived from (hbar lives there); (d) ordering tags xpxp/xxpp: the index maps are applied to quantities of the source ordering, sums and products combine one ordering, ordering-named getters/setters return/receive that ordering.",
     "C15": " Also: (c) each Givens step of the Clements sweep nulls one element of the addressed pair for the angles _get_angles returns, symbolically for every non-zero pivot and with the degenerate arm's constants for a zero pivot.",
